@@ -222,7 +222,57 @@ def serialised_values_are_independent(out):
     return n
 
 
+def tag_twins_in_sequence(out):
+    """one tagged-union type object (one memoised converter), all three layouts: documents with the declared int tag, then with
+    True / 1.0 / (1+0j) in its place -- in later calls and later in one list.  The ill-kinded tags are refused every time."""
+    import typing as t
+    import pane
+    from pane.annotations import Tagged
+    n = 0
+
+    class V1(pane.PaneBase):
+        version: t.Literal[1] = 1
+        name: str = 'a'
+
+    class V2(pane.PaneBase):
+        version: t.Literal[2] = 2
+        name: str = 'b'
+    for lay_label, ext in (('internal', False), ('external', True), ('adjacent', ('t', 'c'))):
+        T = t.Annotated[t.Union[V1, V2], Tagged('version', external=ext)]
+
+        def doc(tag):
+            if ext is False:
+                return {'version': tag, 'name': 'a'}
+            if ext is True:
+                return {tag: {'name': 'a'}}
+            return {'t': tag, 'c': {'name': 'a'}}
+        with warnings.catch_warnings():
+            warnings.simplefilter('ignore')
+            for round_ in range(2):
+                for tag, want in ((1, True), (True, False), (1.0, False), (2, True), (2.0, False), ((1 + 0j), False), (1, True)):
+                    n += 1
+                    try:
+                        r = pane.from_data(doc(tag), T)
+                        got = True
+                    except pane.ConvertError as e:
+                        got, msg = False, str(e)
+                    except Exception as e:
+                        out.violation(f'C12:tag-twins:{type(e).__name__}', f'{lay_label}: tag {tag!r} raised {type(e).__name__}: {str(e)[:120]}', {'layout': lay_label, 'tag': repr(tag)})
+                        continue
+                    if got != want:
+                        out.violation('C12:tag-twins', f'{lay_label}, after a good document through the same converter: the tag {tag!r} ({type(tag).__name__}) is '
+                                      f'{"accepted -> " + repr(r) if got else "refused"}; declared tags are the ints 1 and 2', {'layout': lay_label, 'tag': repr(tag)})
+                n += 1
+                try:
+                    r = pane.from_data([doc(1), doc(True)], t.List[T])
+                    out.violation('C12:tag-twins', f'{lay_label}: [tag 1, tag True] in one list was accepted -> {r!r}', {'layout': lay_label, 'tag': 'True'})
+                except pane.ConvertError:
+                    pass
+    return n
+
+
 def run(ctx, out):
+    out.evaluations += tag_twins_in_sequence(out)
     out.rule = ('tagged unions (2-3 variant dataclasses, tags str/int, three layouts) at top level and nested x values: valid per layout, '
                 'edited (tag changed / removed / replaced by list, dict, None, float; keys added), arbitrary. The result or error is compared '
                 'with the declared variant run alone on the body; absent/unknown/ill-kinded tags must give a ConvertError naming the tag; '
